@@ -343,6 +343,7 @@ func runC10(c c10Case) (res c10Result) {
 	}
 	// run the program
 	closed := false
+	ackedTTL := map[string]int64{}
 	for i, cmd := range prog.Cmds {
 		fired := target != nil && target.FaultsFired() > 0
 		o, err := cl.Do(cmd)
@@ -385,6 +386,12 @@ func runC10(c c10Case) (res c10Result) {
 				return fail("d", "command %d (%s) returned for key %q a value (%s, flags %d) that is not a possible current value %v", i, cmd, h.Key, short(h.Value), h.Flags, modelValues(model[h.Key]))
 			}
 		}
+		if (cmd.Kind == wire.Touch && o.Class == wire.OK) || (cmd.Kind == wire.Gat && o.Class == wire.OK && len(o.Hits) == 1) {
+			// an acknowledged change of the expiry: every tier that still holds the key owes it
+			ackedTTL[cmd.Key] = nowUnix() + int64(cmd.Exptime)
+		} else if cmd.Kind != wire.Get {
+			delete(ackedTTL, cmd.Key)
+		}
 		model.observe(cmd, o.Class, fired || firedAfter)
 		if o.Class == wire.Closed {
 			closed = true
@@ -407,6 +414,34 @@ func runC10(c c10Case) (res c10Result) {
 			if r.Conn == connL2 {
 				res.ReqsL2++
 				res.Roles = append(res.Roles, "L2 "+opName(r.Opcode)+" "+r.Key)
+			}
+		}
+	}
+	// (d, expiry) an acknowledged touch / get-and-touch holds on every tier that still
+	// has the key -- unless the backend lied (a believable "not found" to the touch)
+	if c.Fault == nil || !(c.Fault.Kind == "status" && lyingStatus(faultedOp, c.Fault.Status, c.Fault.Tier == "L1" && st.Cfg.L1 == "chunked")) {
+		for k, want := range ackedTTL {
+			tiers := []struct {
+				name    string
+				f       *fakemc.Server
+				chunked bool
+			}{{"L1", st.L1, st.Cfg.L1 == "chunked"}}
+			if hasL2 {
+				tiers = append(tiers, struct {
+					name    string
+					f       *fakemc.Server
+					chunked bool
+				}{"L2", st.L2, false})
+			}
+			for _, tr := range tiers {
+				live := tr.f.Live()
+				for name, e := range live {
+					if (!tr.chunked && name == k) || (tr.chunked && derivedFrom(name, k)) {
+						if !deadlineClose(e.Deadline, want) {
+							return fail("d", "the expiry change of %q was acknowledged, but %s entry %q expires at %d (raw exptime %d), not at %d", k, tr.name, name, e.Deadline, e.RawExp, want)
+						}
+					}
+				}
 			}
 		}
 	}
